@@ -1,7 +1,7 @@
 /-
 Wrapping decoder (C01, release build), part 8: the whole stream — the release-build decoder applied to
 the frames `encode_with_fixed_block_size` emits returns the interleaved input audio, for every oracle
-log satisfying `OEvent.Ok`, WITHOUT `StreamFits`.
+log satisfying `OEvent.Ok`.
 -/
 import FlacVerif.Lemmas.WrapParse
 import FlacVerif.Lemmas.StrictBlocks
